@@ -127,6 +127,36 @@ class Gen:
                         ops.append("SS:%d:%d:%s:N:-" % (c, sl, hx(k[len(d) + 1:])))
             ops.append("IN:%d:%d" % (c, isl))
 
+    def clone_open(self):
+        """The application sets translation options, clones the context (mostly with
+        KDUMP_CLONE_XLAT), opens a dump THROUGH THE CLONE, and every option is read by path and by
+        iteration through both contexts: what the application set must survive in both."""
+        r = self.rng
+        ops = []
+        keys = r.sample(self.ax, min(len(self.ax), r.randint(2, 6)))
+        for k in keys:
+            ty = self.by_name[k][0]
+            ops.append("S:0:%s:%s:%s" % (hx(k), ty, self.value(ty)))
+        if r.random() < 0.3:
+            ops.append("S:0:%s:N:-" % hx(r.choice(keys)))
+        xl = 1 if r.random() < 0.8 else 0
+        ops.append("C:0:%d" % xl)
+        for k in r.sample(self.ax, 2):                       # some more through the clone, before the open
+            if r.random() < 0.5:
+                ty = self.by_name[k][0]
+                ops.append("S:1:%s:%s:%s" % (hx(k), ty, self.value(ty)))
+                keys.append(k)
+        via = 1 if r.random() < 0.85 else 0
+        ops.append("O:%d:%d" % (r.randrange(self.nfiles), via))
+        for k in keys + r.sample(self.ax, 2):
+            ops += ["G:1:%s" % hx(k), "G:0:%s" % hx(k)]
+        for d in ("addrxlat.force", "addrxlat.default", "addrxlat"):
+            for c in (1, 0):
+                isl = r.randrange(3)
+                ops.append("I:%d:%d:%s" % (c, isl, hx(d)))
+                ops += ["IN:%d:%d" % (c, isl)] * (len(self.kids[d]) + 1)
+        return ([self.variant] if self.variant != "P" else []) + ops
+
     def history(self, maxops):
         r = self.rng
         ops = []
@@ -357,9 +387,48 @@ def big_history(rng, n, variant="B"):
     return ["%s%d" % (variant, n)] + ops
 
 
+def chain_history(rng, n, variant):
+    """Y<n> / Z<n>: a chain of cloned dictionaries (three in a row); the n VMCOREINFO lines and
+    file.set.0..2 were created through the leaf.  Every level must find them by path, by
+    sub-reference and by iteration; then the clones are freed (middle first) and the original
+    must still have them."""
+    k = 2 if variant == "Y" else 3
+    lines = "linux.vmcoreinfo.lines"
+    ops = []
+    for c in range(k + 1):
+        ops.append("R:%d:%d:%s" % (c, c, hx(lines)))
+    keys = list(range(n))
+    for i in rng.sample(keys, min(n, 60)):
+        for c in range(k + 1):
+            ops.append("G:%d:%s" % (c, hx("%s.K%d" % (lines, i))))
+        c = rng.randrange(k + 1)
+        ops += ["SR:%d:5:%d:%s" % (c, rng.randrange(k + 1), hx("K%d" % i)), "RG:%d:5" % rng.randrange(k + 1)]
+    for c in range(k + 1):
+        ops.append("I:%d:%d:%s" % (c, c % 3, hx(lines)))
+        ops += ["IN:%d:%d" % (c, c % 3)] * (n + 1)
+        for nm in ("file.set", "file.set.2"):
+            ops.append("I:%d:%d:%s" % (c, c % 3, hx(nm)))
+            ops += ["IN:%d:%d" % (c, c % 3)] * 5
+        ops += ["G:%d:%s" % (c, hx("file.set.%d.name" % j)) for j in range(4)]
+        ops.append("S:%d:%s:s:%s" % (c, hx("file.set.%d.name" % (c % 3)), hx("name%d" % c)))
+    for j, i in enumerate(rng.sample(keys, min(n, 60))):
+        c = j % (k + 1)
+        ops.append("S:%d:%s:s:%s" % (c, hx("%s.K%d" % (lines, i)), hx("w%d" % i)))
+        ops.append("G:%d:%s" % ((c + 1) % (k + 1), hx("%s.K%d" % (lines, i))))
+    # free the clones, the middle of the chain first; the original keeps everything
+    for c in range(1, k + 1):
+        ops.append("F:%d" % c)
+    for i in keys:
+        ops.append("G:0:%s" % hx("%s.K%d" % (lines, i)))
+    ops.append("I:0:0:%s" % hx(lines))
+    ops += ["IN:0:0"] * (n + 1)
+    ops += ["G:0:%s" % hx("file.set.%d.name" % j) for j in range(3)]
+    return ["%s%d" % (variant, n)] + ops
+
+
 def split_case(case):
     """(variant prefix as a list, operations)"""
-    if case and (case[0] in ("P", "F") or (case[0][:1] in ("B", "X") and case[0][1:].isdigit())):
+    if case and (case[0] in ("P", "F") or (case[0][:1] in ("B", "X", "Y", "Z") and case[0][1:].isdigit())):
         return case[:1], case[1:]
     return [], case
 
@@ -455,7 +524,8 @@ def check(run):
     maxops = 30 if quick else 45
     nbig = 1200 if quick else 3000
     nx = 300
-    variants = ["P", "F", "B%d" % nbig, "X%d" % nx]
+    nch = 150
+    variants = ["P", "F", "B%d" % nbig, "X%d" % nx, "Y%d" % nch, "Z%d" % nch]
     tree_lines, trees = [], {}
     for v in variants:
         rc, out, err = core.run_impl(exe, ["--tree", v], timeout=60)
@@ -511,10 +581,17 @@ def check(run):
         cases.append(big_history(run.rng, nbig))
     # the same on attributes that were created through a KDUMP_CLONE_XLAT clone which was freed first
     cases.append(big_history(run.rng, nx, "X"))
+    # chains of cloned dictionaries, attributes created through the leaf
+    for _ in range(1 if quick else 4):
+        cases.append(chain_history(run.rng, nch, "Y"))
+        cases.append(chain_history(run.rng, nch, "Z"))
     for _ in range(ncases):
         cases.append(gen.history(maxops))
     for _ in range(nfresh):
         cases.append(genf.history(maxops))
+    if usable:
+        for j in range(ncases // 8):
+            cases.append((gen if j % 2 else genf).clone_open())
     run.cov["rule"] = ("one case = one operation history on a freshly prepared real context (%d keys); distinct = distinct "
                        "histories; non-trivial = contains a clear, a type mismatch, a clone or a re-open" % len(tree))
     run.cov["engines"]["attr"] = {"corpus_cases": ncorpus, "generated": ncases, "fresh_context_histories": nfresh,
